@@ -33,6 +33,27 @@ from allmydata.interfaces import DownloadStopped
 from allmydata.storage.immutable import ShareFile
 
 
+
+def real_segsize(size, k, maxseg):
+    return ((min(maxseg, size) + k - 1) // k) * k if size else 0
+
+
+def randomize_guess(rng, real=None, allow_lt=True):
+    """A fresh download node guesses the segment size (default_max_segment_size) until it has fetched the
+    UEB; real files may have larger or smaller segments than the guess.  Vary the guess so that cold ranged
+    reads go through both retry directions (guess too small / too large) as well as the exact one.
+    Returns "lt" / "eq" / "gt".  Guesses below the real size make some cold ranged reads fail or spin on the
+    unchanged tree (known finding of C04), so traces carry the relation in consts["guess"]."""
+    from allmydata.immutable.downloader.node import DownloadNode
+    if not real:
+        DownloadNode.default_max_segment_size = 128 * 1024
+        return "gt"
+    opts = [real, real, real * 3, 128 * 1024] + ([max(1, (real + 1) // 2), max(1, real // 4)] if allow_lt else [])
+    g = rng.choice(opts)
+    DownloadNode.default_max_segment_size = g
+    return "lt" if g < real else ("eq" if g == real else "gt")
+
+
 def plaintext(cid, size, variant=""):
     """Deterministic bytes for plaintext class (cid, size, variant): a SHA-256 counter stream keyed by cid;
     variant "t" flips the last byte, variant "h" flips the first byte."""
@@ -254,6 +275,7 @@ def run_layout_case(work, c, seed):
         events.append(ev)
         if cap is not None:
             g.policy = random.Random(rng.randrange(1 << 30))
+            randomize_guess(rng, ev.get("ueb", {}).get("segment_size"), allow_lt=False)
             node = g.nodemaker.create_from_cap(cap)
             lit = isinstance(node, LiteralFileNode)
             g.calllog[:] = []
@@ -337,6 +359,7 @@ def env_action(rng, consumers, budget):
 def run_scenario(g, cap, data, consts, reads, rng, calm=False):
     """Several reads on ONE fresh node.  reads: list of (off, size)."""
     events = []
+    consts = dict(consts, guess=randomize_guess(rng, real_segsize(len(data), consts["k"], consts["maxseg"])))
     node = g.nodemaker.create_from_cap(cap)
     lit = isinstance(node, LiteralFileNode)
     g.policy = random.Random(rng.randrange(1 << 30))
@@ -401,6 +424,7 @@ def mode_reads(a, inp):
             cls = cls[:int(inp.get("nsingle", len(cls)))]
             for b0 in range(0, len(cls), 6):
                 batch = cls[b0:b0 + 6]
+                guess = randomize_guess(rng, real_segsize(len(data), f["k"], f["maxseg"]))
                 node = g.nodemaker.create_from_cap(cap)
                 lit = isinstance(node, LiteralFileNode)
                 g.policy = random.Random(rng.randrange(1 << 30))
@@ -414,7 +438,7 @@ def mode_reads(a, inp):
                         break
                     obs.append({"case": c, "nbytes": cons.nbytes, "nwrites": cons.nwrites, "finished": cons.finished})
                 events.append({"ev": "End"})
-                out["singles"].append({"trace": {"consts": dict(consts, readers=["r%d" % j for j in range(len(batch))]),
+                out["singles"].append({"trace": {"consts": dict(consts, guess=guess, readers=["r%d" % j for j in range(len(batch))]),
                                                  "events": events}, "obs": obs})
             # (b) concurrent scenarios
             for s in range(int(inp.get("nscen", 0))):
